@@ -950,7 +950,13 @@ func _panic(n *node) {
 	value := genValue(n.child[1])
 
 	n.exec = func(f *frame) bltn {
-		panic(value(f))
+		// Panic with the value itself, not with the reflect.Value which holds it,
+		// so that recover (and the host, in Panic.Value) get the original value.
+		v := value(f)
+		if !v.IsValid() {
+			panic(nil)
+		}
+		panic(v.Interface())
 	}
 }
 
